@@ -128,6 +128,13 @@ Decode(base, s) ==
     LET r == Run(Len(base), s) IN
     [st |-> r.st, out |-> IF r.st = "ok" THEN Mat(base, s, r.segs) ELSE <<>>]
 
+\* C git as a decoder (third opinion, and one of the statement's decoders): patch_delta() is the
+\* reference decoder, except that it refuses every delta shorter than DELTA_SIZE_MIN = 4 bytes.
+\* Only a delta to an empty target is that short (two headers and no op); git never creates one.
+\* The harness offers a delta to git index-pack only when Len(s) >= 4 and both size headers are
+\* at most 9 bytes long (beyond that git's 64-bit shift arithmetic, not the format, decides).
+GitAccepts(blen, s) == Len(s) >= 4 /\ Run(blen, s).st = "ok"
+
 \* ------------------------------------------------------------------ the postcondition
 \* "output whose length equals the size the delta declares and that consists only of slices of
 \* the base and literal inserts", stated on the op list: the output is the concatenation of the
